@@ -11,6 +11,10 @@ SITE_M = "es_search.py:_get_selection_idx_mask_"
 SITE_E = "es_search.py:ESSearch.__call__"
 SITE_H = "search_hedge.py:ESSearchHedge.__call__"
 
+# case kinds of corpus/ entries (failing inputs of past regressions) that this module replays on every run
+CORPUS_KINDS = ('hedge', 'search_run')
+
+
 
 def mask_level(ctx, rep):
     from pybads.search.es_search import ESSearchWM
